@@ -318,7 +318,7 @@ def main(tier):
     for b in bad:
         run.inconclusive_because(f"positive control did not fire: {b}")
     plan = PLAN[tier]
-    run_shards(run, "c07", plan["shards"], timeout_s=900 if tier == "quick" else 14400)
+    run_shards(run, "c07", plan["shards"], timeout_s=3600 if tier == "quick" else 14400)
     seen = run.counters.get("rules_seen", {})
     documented = ["add_zero", "minus_zero", "multiply_zero", "multiply_one", "equal_same", "not_equal_same", "and_true",
                   "and_false", "or_true", "or_false", "boolean_cast_constant", "branch_true", "branch_false", "loop_false",
